@@ -290,7 +290,7 @@ ASAN_ENV = {"ASAN_OPTIONS": "detect_leaks=0:abort_on_error=0:exitcode=99",
             "UBSAN_OPTIONS": "print_stacktrace=1:halt_on_error=1:exitcode=98"}
 
 
-def run_pair(ctx, impl_exe, model_exe, cases, tag, timeout=240):
+def run_pair(ctx, impl_exe, model_exe, cases, tag, timeout=1800):
     """write cases to a file, run both sides, return (impl_lines, model_lines, impl_log)"""
     d = ctx["workdir"]
     cf = os.path.join(d, "%s.cases" % tag)
